@@ -30,8 +30,22 @@ pub fn run(ctx: &Ctx, rep: &mut Report) {
 fn single(ctx: &Ctx, rep: &mut Report, id: usize, cfg: Cfg, k: usize, leg: &str) {
     <P as Gx>::case_reset();
     let mut rng = ctx.rng(&format!("c09-{GROUP}"), id as u64);
-    let case = Case::random(cfg, VALUE_CLASSES[k % 6], PROMISE_CLASSES[k % 5], true, &mut rng);
-    let replay = json!({"tier": if ctx.thorough() {"thorough"} else {"quick"}, "seed": ctx.seed, "leg": leg, "case": id, "descr": case.json()});
+    let mut case = Case::random(cfg, VALUE_CLASSES[k % 6], PROMISE_CLASSES[k % 5], true, &mut rng);
+    // corner seeds and masks: the zero seed, the seed one, an all-zero blinding vector (mask of zeros)
+    match id % 11 {
+        0 => {
+            case.seed = Some(Scalar::ZERO);
+            rep.count("zero_seed_cases", 1);
+        },
+        1 => case.seed = Some(Scalar::ONE),
+        2 => {
+            case.blindings[0] = vec![Scalar::ZERO; cfg.ext];
+            case.commitments[0] = commit(case.params().pc_gens(), case.values[0], &case.blindings[0]);
+            rep.count("zero_mask_cases", 1);
+        },
+        _ => {},
+    }
+    let replay = json!({"tier": if ctx.thorough() {"thorough"} else {"quick"}, "seed": ctx.seed, "leg": leg, "case": id, "descr": case.json(), "corner": id % 11});
     let kind = rng_kinds(rng.next_u64())[k % 7].clone();
     let mut prng = FaultRng::new(kind.clone());
     let Ok(proof) = case.prove(&mut prng) else {
@@ -89,12 +103,17 @@ fn batch(ctx: &Ctx, rep: &mut Report, id: usize, b: usize, leg: &str) {
     let size = if ctx.thorough() { [3usize, 7, 20, 257, 300, 520, 600][b % 7] } else { [3usize, 7, 20, 260][b % 4] };
     // a pool of members, then a random arrangement
     let mut pool: Vec<(Case, Proof)> = vec![];
+    let shared_seed = rand_scalar(&mut rng);
     for i in 0..10 {
         let m = [1usize, 1, 2, 1, 4, 1][i % 6];
         let m = if n * m > 64 { 1 } else { m };
         let cfg = Cfg::new(n, m, (m << (i % 2)).min(8), ext);
         let seeded = i % 3 != 1;
-        let case = Case::random(cfg, VALUE_CLASSES[i % 6], PROMISE_CLASSES[i % 5], seeded, &mut rng);
+        let mut case = Case::random(cfg, VALUE_CLASSES[i % 6], PROMISE_CLASSES[i % 5], seeded, &mut rng);
+        // several different members share one recovery seed (one wallet key for many outputs)
+        if case.seed.is_some() && i % 2 == 0 {
+            case.seed = Some(shared_seed);
+        }
         let mut prng = FaultRng::new(RngKind::Healthy(rng.next_u64()));
         if let Ok(p) = case.prove(&mut prng) {
             pool.push((case, p));
